@@ -76,6 +76,33 @@ def mulDekker (cb : Nat) : List Node := [
   ⟨.add, [12, 19], 0⟩ ] -- 20: xyl
 def mulDekkerOuts : List Nat := [2, 20]
 
+/-- fpa.split_veltkamp(x, scale=True): x_n = select(|x| < 1, x, x*invN); g = C*x_n; d = g - x_n; gd = g - d;
+xh = select(|x| > x_max, select(x < 0, -x_max, x_max), select(|x| < 1, gd, gd*N)); xl = x - xh -/
+def splitVScale (xmb zb oneb cb invb nb : Nat) : List Node := [
+  ⟨.input, [], 0⟩,            -- 0: x
+  ⟨.abs, [0], 0⟩,             -- 1: |x|
+  ⟨.const, [], xmb⟩,          -- 2: x_max
+  ⟨.gt, [1, 2], 0⟩,           -- 3: |x| > x_max
+  ⟨.const, [], zb⟩,           -- 4: 0
+  ⟨.lt, [0, 4], 0⟩,           -- 5: x < 0
+  ⟨.neg, [2], 0⟩,             -- 6: -x_max
+  ⟨.select, [5, 6, 2], 0⟩,    -- 7
+  ⟨.const, [], oneb⟩,         -- 8: 1
+  ⟨.lt, [1, 8], 0⟩,           -- 9: |x| < 1
+  ⟨.const, [], cb⟩,           -- 10: C
+  ⟨.const, [], invb⟩,         -- 11: invN
+  ⟨.mul, [11, 0], 0⟩,         -- 12: invN*x
+  ⟨.select, [9, 0, 12], 0⟩,   -- 13: x_n
+  ⟨.mul, [10, 13], 0⟩,        -- 14: g
+  ⟨.sub, [14, 13], 0⟩,        -- 15: d
+  ⟨.sub, [14, 15], 0⟩,        -- 16: gd
+  ⟨.const, [], nb⟩,           -- 17: N
+  ⟨.mul, [16, 17], 0⟩,        -- 18: gd*N
+  ⟨.select, [9, 16, 18], 0⟩,  -- 19
+  ⟨.select, [3, 7, 19], 0⟩,   -- 20: xh
+  ⟨.sub, [0, 20], 0⟩ ]        -- 21: xl
+def splitVScaleOuts : List Nat := [20, 21]
+
 /-- fpa.mul_dekker(x, y, scale=False, fix_overflow=True):  overflow = |xh*yh| > largest;
 xyh = select(overflow, x*y, xyh); xyl = select(overflow, 0, xyl) -/
 def mulDekkerFix (cb lb zb : Nat) : List Node := [
